@@ -118,6 +118,15 @@ def encode_isa(lay: dict, variant: int = 0):
         ins['operands'] = {'count': len(ops), 'operand_sets': {'list': [f's{k + 1}' for k in range(len(ops))],
                                                                'reverse_argument_order': bool(lay['revArg']),
                                                                'reverse_bytecode_order': bool(lay['revCode'])}}
+    if (variant // 5) % 3 == 1:
+        # the layout is hosted by a VARIANT of the instruction; the primary form (one operand more, so the statement does not
+        # match it) has another opcode, an opcode suffix and the other byte order: a variant's byte code is its own, nothing of
+        # the primary form's is inherited
+        other = 'little' if (lay['opEn'] if lay['opEn'] != 'def' else lay['defEn']) == 'big' else 'big'
+        primary = {'bytecode': {'value': 0x2B, 'size': 7, 'endian': other, 'suffix': {'value': 1, 'size': 1}},
+                   'operands': {'count': len(ops) + 1, 'operand_sets': {'list': ['hostset'] * (len(ops) + 1)}}}
+        operand_sets['hostset'] = {'operand_values': {'hostnum': {'type': 'numeric', 'argument': {'size': 8, 'byte_align': True}}}}
+        ins = dict(primary, variants=[ins])
     cfg = {'description': 'generated', 'general': base_general(lay['defEn'], registers=regs),
            'operand_sets': operand_sets if operand_sets else {'dummy': {'operand_values': {'d': {'type': 'numeric', 'argument': {'size': 8, 'byte_align': True}}}}},
            'instructions': {'ins': ins, 'pad': {'bytecode': {'value': 0xEE, 'size': 8}}}}
